@@ -57,7 +57,8 @@ OZ   == D(<<"o.zip">>)                            \* a directory member named li
 OZA  == F(<<"o.zip", "a">>, "plain")
 L_oz == L(<<"l">>, <<"o.zip">>)
 D_la == L(<<"d", "l">>, <<"a">>)                  \* d/l -> a     (relative to its own directory)
-UFullQ == {A, Dd, DA, D_ef, HID, ABS, GMAP, LNK, EXE, MBX, PYG, L_a, L_d, L_Aa, L_ua, L_m, M_l, M_a, L_x, L_uu, K_la, DL_ua, D_la, PZ, OZ, OZA}
+SELFN == F(<<"d", "ZQ.zip.txt">>, "plain")        \* a member whose path holds the archive's own selector ("/ZQ.zip") again
+UFullQ == {A, Dd, DA, D_ef, HID, ABS, GMAP, LNK, EXE, MBX, PYG, L_a, L_d, L_Aa, L_ua, L_m, M_l, M_a, L_x, L_uu, K_la, DL_ua, D_la, PZ, OZ, OZA, SELFN}
 UCoreQ == {A, Dd, DA, L_a, L_d, L_Aa, L_ua, L_m, M_l, M_a, L_x, K_la, DL_ua, GMAP}
 UCoreT == {A, DA, D_ef, L_a, L_d, L_de, L_m, M_l, M_a, L_x, K_la, K_lf, K_lua, DL_ua, D_la, OZA}
 UCoreT5 == {A, DA, D_ef, L_d, L_de, L_m, M_l, M_a, K_la, K_lf}
